@@ -24,6 +24,12 @@ namespace small { struct Elem { char c; }; }
 namespace big { struct Elem { double d[4]; }; }
 struct UsesInst { Box<int> a; Box<small::Elem> s; Box<big::Elem> b; Pair<char, double> p; Pair<Box<short>, int> q; };
 struct AlsoUses { Box<int> again; Box<big::Elem> *ptr_only; };
+// union templates, and instantiations that are only ever used behind a pointer or a reference (clang computes no layout for them
+// unless asked): an assertion about them is optional, but its numbers are not
+template <typename T> union Slot { T t; char c; };
+template <typename T> union Handle { T *p; char tag[12]; };
+template <typename T> struct Node { T v; Node<T> *next; char c; };
+struct PtrOnly { Slot<long double> *a; Handle<double> *b; Slot<short> &r; Slot<int> byval; Node<double> *n; Node<char> nc; };
 '''
 
 
@@ -285,7 +291,8 @@ def instantiations(ck):
     probe = INST_CPP + "\n#include <stdio.h>\nint main(){\n" + "\n".join(
         f'printf("{n} %zu %zu\\n", sizeof({t}), alignof({t}));' for n, t in
         [("Box<int>", "Box<int>"), ("Box<small::Elem>", "Box<small::Elem>"), ("Box<big::Elem>", "Box<big::Elem>"), ("Pair<char,f64>", "Pair<char, double>"),
-         ("Box<short>", "Box<short>"), ("Pair<Box<short>,int>", "Pair<Box<short>, int>")]) + "\nreturn 0;}\n"
+         ("Box<short>", "Box<short>"), ("Pair<Box<short>,int>", "Pair<Box<short>, int>"), ("Slot<int>", "Slot<int>"), ("Node<char>", "Node<char>"),
+         ("?Slot<u128>", "Slot<long double>"), ("?Handle<f64>", "Handle<double>"), ("?Slot<short>", "Slot<short>"), ("?Node<f64>", "Node<double>")]) + "\nreturn 0;}\n"
     pp = os.path.join(wd, "p.cpp")
     open(pp, "w").write(probe)
     rc, _, err = common.clang(["-x", "c++", "-std=c++14", "-w", "-o", os.path.join(wd, "p"), pp])
@@ -311,6 +318,13 @@ def instantiations(ck):
             got.setdefault(norm(ty), {})[kind] = n
         for name, (s, a) in want.items():
             key = name
+            if name.startswith("?"):
+                # optional (pointer-only) instantiation: if anything is asserted about it, the numbers are C++'s
+                g = got.get(name[1:])
+                if g is not None and (g.get("size", s) != s or g.get("align", a) != a):
+                    ck.violation(f"instantiations {jid} type={name[1:]} wrong-numbers", {"variant": "inst",
+                                 "why": f"instantiation {name[1:]} is used only behind a pointer; its assertions {g} contradict C++ (size {s}, align {a})"})
+                continue
             g = got.get(key)
             if g is None or g.get("size") != s or g.get("align") != a:
                 ck.violation(f"instantiations {jid} type={name}", {"variant": "inst",
